@@ -180,6 +180,17 @@ Theorem entries_on_different_attributes_commute : forall b1 e1 b2 e2 T T1 T12,
 Proof. exact step_commute. Qed.
 Print Assumptions entries_on_different_attributes_commute.
 
+(* ... and the rollback is not exact on such an object: the hypothesis Hnames of
+   apply_failure_rolls_back excludes exactly this class *)
+Theorem apply_failure_rolls_back_refuted_dup_info :
+  exists T d T', keys_unique T && vals_u64 T && info_pairs_nodup T = true /\
+                 diff_apply 0 d T = ARet (-2) T' /\ T' <> T.
+Proof.
+  exists di_R, [EAttr 0 0 (DInfo "Y" "b" "a"); EAttr 0 0 (DInfo "Z" "a" "b")], (topo1 (Some "m") [("Y", "b"); ("Y", "a")]).
+  destruct dup_info_rollback_witness as [H1 H2]. split; [exact H1|]. split; [exact H2|]. intros E. discriminate E.
+Qed.
+Print Assumptions apply_failure_rolls_back_refuted_dup_info.
+
 (* ---------------- non-vacuity ---------------- *)
 
 Definition ex_T := topo2 "p0" "p1" 1000 2000 [("X", "a"); ("Y", "b")] [] [("T", "1")].
